@@ -446,6 +446,18 @@ class World:
                     return op.get('v')
                 elif k == 'raise':
                     raise mkexc(op['exc'])
+                elif k == 'tick':
+                    # filler: n unrecorded zero-delay occurrences (a long-running simulation has scheduled millions of
+                    # events before the coincidence of interest; only the kernel's internal counters notice)
+                    self.rec('O', pid, i, 'tick', op.get('n', 0))
+                    for _ in range(int(op.get('n', 0))):
+                        env.quiet = True
+                        try:
+                            fe = env.timeout(0)
+                        finally:
+                            env.quiet = False
+                        yield fe
+                    continue
                 elif k == 'burn':
                     if hasattr(self, 'wall'):
                         self.wall.burn(op['w'])
